@@ -753,9 +753,13 @@ impl Check for C08 {
                 continue;
             }
             rep.execs += cexecs;
+            if !w.seen.insert(f.sig.clone()) {
+                rep.violations.push(Violation { signature: f.sig.clone(), what: f.what.clone(), replay: self.to_json(&s), shrink_execs: 0, minimised: false });
+                continue;
+            }
             let (m, execs) = self.minimise(w, &s, si, &f.sig);
             rep.execs += execs;
-            rep.violations.push(Violation { signature: f.sig.clone(), what: f.what.clone(), replay: self.to_json(&m), shrink_execs: execs });
+            rep.violations.push(Violation { signature: f.sig.clone(), what: f.what.clone(), replay: self.to_json(&m), shrink_execs: execs, minimised: true });
         }
         if n < 3 {
             rep.sample = Some(json!({
@@ -774,6 +778,6 @@ impl Check for C08 {
         };
         w.materialise(&scn.files);
         let mut rep = Report::default();
-        self.run(w, &scn, &mut rep).into_iter().map(|(_, f)| Violation { signature: f.sig, what: f.what, replay: Value::Null, shrink_execs: 0 }).collect()
+        self.run(w, &scn, &mut rep).into_iter().map(|(_, f)| Violation { signature: f.sig, what: f.what, replay: Value::Null, shrink_execs: 0, minimised: false }).collect()
     }
 }
